@@ -22,6 +22,8 @@ def run(res, tier, replay):
         q = tier == "quick"
         base = sweep.repo_cases() + sweep.generated_cases(rng, 2 if q else 20)
         hostile = sweep.uninit_cases(rng, 6 if q else 80)
+        # call sequences in which an earlier failed read could leave a half-filled buffer behind (a truncated CHM looked up twice, short reset tables ...)
+        hostile += [c for c in sweep.targeted_cases(rng, 6 if q else 30) if c.label.startswith(("hostile:", "gen:chm"))]
         cases = robust.corpus_cases() + hostile + base + sweep.damaged_cases(rng, base, 1 if q else 6)
         n = robust.fill_oracle(res, cases, exe)
         # small fill values are plausible code lengths / symbols: the hostile inputs are also run with fresh memory holding 4, 5, 6, 8 and 1
